@@ -90,6 +90,35 @@ def run_one(ch, cfg):
         "post_exit_ui_nosig": {"mode": MODE_DASHBOARD, "delay": 0.5, "silence": "read_err"}})
     w = AdminWorld(ch, dev)
     viol = []
+    if ch.draw(8, "foreign-file") == 1:
+        # an authorization file that did not come from `signapp message` (hand-written, another tool)
+        # with a malformed signer hash: every command that loads it refuses it, nothing reaches the
+        # device and the file stays as it is
+        h = ch.bytes(32, "foreign.hash").hex()
+        bad = ch.pick(["0x" + h, "0X" + h, h[:-1], h + "0", h + "00", "zz" * 32, "", h[:-2] + "  ",
+                       " " + h[1:], 5, None, [h]], "foreign.bad-hash")
+        it = ch.pick([1, 0, 65535], "foreign.iteration")
+        AUTHF = "/simfs/auth.json"
+        raw = json.dumps({"version": 1, "signer": {"hash": bad, "iteration": it},
+                          "signatures": []}).encode()
+        w.fs.put(AUTHF, raw)
+        k0 = Key(scalar(b"foreign" + ch.bytes(4, "foreign.key")))
+        st1, out1 = w.run_tool(signapp.main, ["signapp.py", "key", "-o", AUTHF, "-k", k0.priv.hex()])
+        if st1 == 0 or w.fs.files.get(AUTHF) != raw:
+            viol.append(("tools/malformed-hash-accepted", "signapp key on a file with signer hash %r: "
+                         "exit %s, file %s" % (bad, st1, "changed" if w.fs.files.get(AUTHF) != raw
+                                               else "unchanged")))
+        w.fs.put(AUTHF, raw)
+        n0 = len(dev.sigaut_log)
+        st2, out2 = w.run_tool(adm_ledger.main, ["adm_ledger.py", "authorize_signer", "-p", "abcd1234",
+                                                 "-z", AUTHF])
+        w.entropy_on = False
+        if st2 == 0 or len(dev.sigaut_log) > n0:
+            viol.append(("tools/malformed-hash-accepted", "authorize_signer with signer hash %r: exit %s, "
+                         "%d messages sent to the device" % (bad, st2, len(dev.sigaut_log) - n0)))
+        return _res(viol, w, ("foreign-file", str(type(bad).__name__), len(str(bad))), True,
+                    {"foreign_file": 1}, {"hash": repr(bad)[:80], "signapp_exit": st1,
+                                          "authorize_exit": st2})
     areas = hexfile.gen_areas(ch, max_areas=3)
     w.fs.put("/simfs/signer.hex", hexfile.write(ch, areas))
     app_hash = hexfile.reference_hash(areas)
